@@ -36,7 +36,8 @@ Resp(seq, src, body, iin) == F(129, seq, TRUE, TRUE, FALSE, FALSE, src, iin, bod
 Unsol(seq, src, body, iin) == F(130, seq, TRUE, TRUE, TRUE, TRUE, src, iin, body, IF body = "data" THEN 9 ELSE 0)
 
 CurSeq(st) == IF st.pc = "Await" THEN st.cur.seq ELSE S16(st.A[1].seq + 15)
-Bodies(st) == IF st.pc = "Await" /\ st.cur.task.t = "cmd" THEN {"echo", "badecho", "empty", "bad"}
+Bodies(st) == IF st.pc = "Await" /\ st.cur.task.t = "time" THEN {"g52", "g52z", "empty", "data"}
+              ELSE IF st.pc = "Await" /\ st.cur.task.t = "cmd" THEN {"echo", "badecho", "empty", "bad"}
               ELSE IF st.pc = "Await" /\ st.cur.task.t = "restart" THEN {"g52", "empty"}
               ELSE {"empty", "data", "bad"}
 
@@ -45,7 +46,9 @@ UserTasks(st) == {[t |-> "uread", id |-> NextId(st)],
                   [t |-> "cmd", id |-> NextId(st), mode |-> "do", step |-> "do", ob |-> "a"],
                   [t |-> "cmd", id |-> NextId(st), mode |-> "sbo", step |-> "select", ob |-> "a"],
                   [t |-> "restart", id |-> NextId(st)],
-                  [t |-> "link", id |-> NextId(st)]}
+                  [t |-> "link", id |-> NextId(st)],
+                  [t |-> "time", id |-> NextId(st), proc |-> "nonlan", step |-> "measure"],
+                  [t |-> "time", id |-> NextId(st), proc |-> "lan", step |-> "record"]}
 
 Timers(st) == LET d == NextTimer(st, st.now + 100000)
               IN IF d = NoTime THEN {} ELSE {[k |-> "adv", dt |-> (d - st.now) + 5]}
@@ -54,14 +57,15 @@ InputsResp(st) ==
     (IF st.pc = "Down" /\ ~st.pipe THEN {[k |-> "conn"]} ELSE IF st.pc = "Down" THEN {} ELSE {[k |-> "cut"]})
     \cup (IF st.nreq < MaxReq THEN {[k |-> "req", m |-> [k |-> "task", a |-> 1, task |-> t]] : t \in UserTasks(st)} ELSE {})
     \cup (IF st.pc \in {"Down", "Dead"} THEN {} ELSE
-            {[k |-> "rx", f |-> Resp(CurSeq(st), 1, b, i)] : b \in Bodies(st), i \in {{}, {"err"}}}
+            {[k |-> "rx", f |-> Resp(CurSeq(st), 1, b, i)] : b \in Bodies(st),
+                   i \in {{}, {"err"}} \cup (IF st.pc = "Await" /\ st.cur.task.t = "time" THEN {{"time"}} ELSE {})}
             \cup {[k |-> "rx", f |-> Resp(S16(CurSeq(st) + 1), 1, "empty", {})],
                   [k |-> "rx", f |-> Resp(CurSeq(st), 0, "empty", {})],
                   [k |-> "rx", f |-> [Resp(CurSeq(st), 1, "data", {}) EXCEPT !.con = TRUE]],
                   [k |-> "rx", f |-> [Resp(CurSeq(st), 1, "data", {}) EXCEPT !.fin = FALSE, !.con = TRUE]],
                   [k |-> "rx", f |-> [Resp(CurSeq(st), 1, "data", {}) EXCEPT !.fin = FALSE]],
                   [k |-> "rx", f |-> [Resp(CurSeq(st), 1, "data", {}) EXCEPT !.fir = FALSE]],
-                  [k |-> "rx", f |-> [Resp(CurSeq(st), 1, "echo", {}) EXCEPT !.con = TRUE]],
+                  [k |-> "rx", f |-> [Resp(CurSeq(st), 1, IF st.pc = "Await" /\ st.cur.task.t = "cmd" THEN "echo" ELSE "empty", {}) EXCEPT !.con = TRUE]],
                   [k |-> "rx", f |-> Resp(CurSeq(st), 1, "hdrbad", {})]}
             \cup {[k |-> "rx", f |-> Unsol(q, 1, b, {})] : q \in {0, 1}, b \in {"empty", "data"}}
             \cup {[k |-> "rx", f |-> Unsol(0, 0, "data", {})]}
@@ -75,7 +79,8 @@ InputsStartup(st) ==
                                      [k |-> "req", m |-> [k |-> "poll_add", a |-> 1, pid |-> Len(st.A[1].polls), period |-> 1500, id |-> NextId(st)]]} ELSE {})
     \cup (IF st.pc \in {"Down", "Dead"} THEN {} ELSE
             {[k |-> "rx", f |-> Resp(CurSeq(st), 1, b, i)] :
-                 b \in {"empty", "data"}, i \in {{}, {"err"}, {"rst"}, {"time"}, {"ovf"}, {"c1"}}}
+                 b \in {"empty", "data"} \cup (IF st.pc = "Await" /\ st.cur.task.t = "time" THEN {"g52z", "g52"} ELSE {}),
+                 i \in {{}, {"err"}, {"rst"}, {"time"}, {"ovf"}, {"c1"}}}
             \cup {[k |-> "rx", f |-> Resp(CurSeq(st), 1, "bad", {})],
                   [k |-> "rx", f |-> [Resp(CurSeq(st), 1, "data", {}) EXCEPT !.fin = FALSE, !.con = TRUE]]}
             \cup {[k |-> "rx", f |-> Unsol(q, 1, b, i)] : q \in {0, 1}, b \in {"empty", "data"}, i \in {{}, {"rst"}}})
@@ -142,6 +147,8 @@ Cfg_full1 == <<A_full(1024)>>
 Cfg_quiet2 == <<A_quiet(1024), A_quiet(1025)>>
 Cfg_ka2 == <<A_ka(1024), A_quiet(1025)>>
 Cfg_quiet3 == <<A_quiet(1024), A_quiet(1025), A_quiet(1026)>>
+Cfg_tsync1 == <<[A_full(1024) EXCEPT !.tsync = "nonlan"]>>
+Cfg_tlan1 == <<[A_full(1024) EXCEPT !.tsync = "lan"]>>
 DEVM_none == {}
 DEVM_d9 == {"NoConfirmForNonRead"}
 DEVM_d18 == {"LinkStatusTimeoutRearms"}
